@@ -41,7 +41,24 @@ fn expr_over(r: &mut R, c: &str, ty: &str) -> J {
         ("arr", 2) => json!({"op": "idx", "a": x, "i": lit(jint(1))}),
         ("ts", 1) => json!({"op": "call", "f": "extract_year", "args": [x]}),
         (_, 4) => json!({"op": "is", "neg": r.gen_bool(0.5), "a": x, "b": lit(json!({"t": "null"}))}),
+        ("int", 0) | ("text", 0) | ("bool", 0) | ("ts", 0) | ("iv", 0) => json!({"op": "cast", "a": x, "ty": "text"}),
+        ("real", 1) => json!({"op": "arith", "f": "*", "a": x, "b": lit(jreal(2.0))}),
+        ("real", 2) => json!({"op": "neg", "a": x}),
+        ("text", 3) => json!({"op": "call", "f": "lower", "args": [x]}),
+        ("int", 4) => json!({"op": "call", "f": "abs", "args": [x]}),
         _ => x
+    }
+}
+
+/// an expression over two columns (or a column and the raw line): CASE on a condition over the one, arithmetic between two INT columns
+fn expr_over2(r: &mut R, names: &[String], types: &[String]) -> J {
+    let i = r.gen_range(0..names.len()); let j = r.gen_range(0..names.len());
+    match r.gen_range(0..4) {
+        0 => json!({"op": "case", "cl": [[cond_over(r, &names[i], &types[i]), expr_over(r, &names[j], &types[j])]], "el": lit(json!({"t": "null"}))}),
+        1 if types[i] == "int" && types[j] == "int" => json!({"op": "arith", "f": (["+", "-", "*"][r.gen_range(0..3)]), "a": col(&names[i]), "b": col(&names[j])}),
+        2 => json!({"op": "call", "f": "length", "args": [col("input")]}),
+        3 if types[i] == types[j] && types[i] != "arr" => json!({"op": "cmp", "f": (["=", "<", ">="][r.gen_range(0..3)]), "a": col(&names[i]), "b": col(&names[j])}),
+        _ => col("input")
     }
 }
 
@@ -119,7 +136,9 @@ pub fn trace(seed: u64, n: usize) -> Vec<J> {
                 json!({"kind": "select", "star": true, "proj": [], "where": wh, "distinct": distinct, "limit": -1, "join": "none"})
             } else if r.gen_bool(0.45) {
                 let np = r.gen_range(1..4);
-                let proj: Vec<J> = (0..np).map(|j| { let i = pick(&mut r); json!({"e": expr_over(&mut r, &names[i], &types[i]), "as": format!("p{}", j + 1)}) }).collect();
+                let proj: Vec<J> = (0..np).map(|j| { let i = pick(&mut r);
+                    let e = if r.gen_bool(0.3) { expr_over2(&mut r, &names, &types) } else { expr_over(&mut r, &names[i], &types[i]) };
+                    json!({"e": e, "as": format!("p{}", j + 1)}) }).collect();
                 json!({"kind": "select", "star": false, "proj": proj, "where": wh, "distinct": distinct, "limit": -1, "join": "none"})
             } else {
                 let ng = r.gen_range(0..3);
